@@ -38,6 +38,9 @@ Nine parts (all run by `run`):
     syntax) and once following the instance's own eAllStructuralFeatures() (eGet by feature object).  Instances are
     kept across additive edits only (what a touched instance keeps after a removal is C12's F-C12-stale-slot).
     (fix bce9cae in /repo made the unchanged code satisfy this: see known_findings.json 'fixed'.)
+    Edits on the EGenericType itself: eClassifier unset (None), set again, re-pointed to another class (any position),
+    generic super types appended without classifier; and "nothing else answers": a feature of the graph that no view
+    of a class lists must raise AttributeError through attribute syntax and eGet(name) on a new instance.
  6. `container_scenarios` (PRNG stream 'C19:containers'): single-valued attributes whose value is a mutable
     container made per instance (EStringToStringMapEntry, EFeatureMapEntry, java.util.List/Map data types,
     type_as_factory data types, a list parsed from a default literal; type list of harness/props/c15.py), declared
@@ -73,11 +76,11 @@ Nine parts (all run by `run`):
     move between parents, remove, delete, to/from a resource) and for every object: eRoot() is the end of the
     eContainer() chain and of the holders read from the containment slots BY IDENTITY; eContents / eAllContents are,
     by identity, the children / every descendant exactly once; eResource is the resource holding the root.
-    Not generated (the unchanged code breaks the OWNERSHIP there, C02's subject, not the views): moving an object
-    between two value-equal parents (_update_container compares containers with !=: the object stays in both), and
-    moving an object whose resource has a ROOT equal to it (`value in resource.contents` is an equality test: that
-    root is taken out of resource.contents and keeps its _eresource).  A case is left (and counted) if an object is
-    found in two containment slots.
+    Two situations broke the OWNERSHIP (C02's subject, not the views) until fix 86e4696 in /repo and are generated and
+    counted since: moving an object between two value-equal parents (_update_container compared containers with !=:
+    the object stayed in both), and moving an object whose resource has a ROOT equal to it (`value in
+    resource.contents` was an equality test: that root left resource.contents and kept its _eresource).  A case is
+    left (and counted) if an object is found in two containment slots.
 """
 from harness import kgen, kprop
 
@@ -958,7 +961,8 @@ def generic_scenarios(ctx, out):
     n = 400 if ctx.tier != 'thorough' else 5000
     st = {'graphs': 0, 'edits': 0, 'class_views': 0, 'object_views': 0, 'mixed_chain_views': 0, 'generic_edits': 0,
           'children_in_slot_inherited_through_generic': 0, 'isinstance_checks': 0, 'raised': 0, 'inst_ops': 0,
-          'redundant_added': 0, 'covering_link_removed': 0, 'views_with_redundant_super': 0}
+          'redundant_added': 0, 'covering_link_removed': 0, 'views_with_redundant_super': 0,
+          'classifier_unset': 0, 'classifier_set_after_unset': 0, 'classifier_repointed': 0}
     sample = None
     for gi in range(n):
         ncls = rng.randrange(3, 7)
@@ -973,7 +977,7 @@ def generic_scenarios(ctx, out):
         state = {'ok': True}
 
         def both(c, s=None, g=None):
-            return list((s or sup)[c]) + [t for (t, _) in (g or gen)[c]]
+            return list((s or sup)[c]) + [t for (t, _) in (g or gen)[c] if t is not None]    # (None: no classifier)
 
         def closure(c):
             seen, todo = [], both(c)
@@ -1001,7 +1005,7 @@ def generic_scenarios(ctx, out):
             if d == c or d in both(c) or c in closure(d) or c == d:
                 return False
             trial = {k: both(k) for k in range(ncls)}
-            trial[c] = (sup[c] + [d] + [t for (t, _) in gen[c]]) if channel == 'plain' else both(c) + [d]
+            trial[c] = (sup[c] + [d] + [t for (t, _) in gen[c] if t is not None]) if channel == 'plain' else both(c) + [d]
             return _plain_mro(trial, ncls) is not None      # Python must accept the bases (C12's subject otherwise)
 
         def add_feature(c):
@@ -1097,6 +1101,18 @@ def generic_scenarios(ctx, out):
                             return fail('meta-attribute-access', f'{who} of K{c}: reading {nm!r} raised {type(e).__name__}')
                         if not (a is b and b is c3):
                             return fail('access-paths', f'{who} of K{c}: {nm!r} read through attribute syntax / eGet(name) / eGet(feature) differs')
+                # ... and nothing else answers: a feature of the graph that no view of K{c} lists is no attribute of a new instance
+                for nm in fobj:
+                    if nm not in want:
+                        for route, rd in (('attribute syntax', lambda: getattr(fresh, nm)), ('eGet(name)', lambda: fresh.eGet(nm))):
+                            try:
+                                rd()
+                            except AttributeError:
+                                continue
+                            except Exception:  # noqa
+                                pass
+                            return fail('meta-undeclared-name-answers', f'no view of K{c} lists {nm!r} (own+inherited: {want}) but {route} '
+                                                                        f'on a new instance of K{c} answers')
 
         def read_desc(x, f):
             v = getattr(objs[x], f['name'])
@@ -1242,8 +1258,11 @@ def generic_scenarios(ctx, out):
                 break
             k = rng.choice(['add-super', 'add-generic', 'add-generic', 'remove-super', 'remove-generic', 'retarget-generic',
                             'add-feature', 'remove-feature', 'instances', 'instances', 'instances',
-                            'add-redundant', 'add-redundant', 'remove-covering', 'remove-covering'])
+                            'add-redundant', 'add-redundant', 'remove-covering', 'remove-covering',
+                            'retarget-generic', 'retarget-generic'])
             c = rng.randrange(ncls)
+            if k == 'retarget-generic' and any(gen.values()):
+                c = rng.choice([x for x in range(ncls) if gen[x]])
             fd = None                  # (a chosen target instead of a random one)
             if k == 'instances':
                 for _ in range(rng.randrange(1, 5)):
@@ -1280,9 +1299,13 @@ def generic_scenarios(ctx, out):
                 d = rng.randrange(ncls) if fd is None else fd
                 if not acceptable(c, d, 'generic'):
                     continue
-                mode = rng.choice(['classifier-set-before', 'classifier-set-after'])
+                mode = rng.choice(['classifier-set-before', 'classifier-set-after', 'classifier-set-after', 'no-classifier']
+                                  if fd is None else ['classifier-set-before', 'classifier-set-after'])
                 if mode == 'classifier-set-before':
                     g = E.EGenericType(eClassifier=K[d])
+                    K[c].eGenericSuperTypes.append(g)
+                elif mode == 'no-classifier':
+                    g, d = E.EGenericType(), None
                     K[c].eGenericSuperTypes.append(g)
                 else:
                     g = E.EGenericType()
@@ -1325,21 +1348,29 @@ def generic_scenarios(ctx, out):
                     continue
                 i = rng.randrange(len(gen[c]))
                 old = gen[c][i]
-                d = rng.randrange(ncls)
-                gen[c].pop(i)
-                ok = acceptable(c, d, 'generic') and i == len(gen[c])       # (only the last one: keeps the order of the bases)
-                gen[c].insert(i, old)
-                if not ok:
-                    continue
-                reset()
-                hist.append(['retarget-generic', c, old[0], d])
+                d = None if (old[0] is not None and rng.random() < 0.45) else rng.randrange(ncls)   # None: the classifier is unset
+                if d is not None:
+                    was = old[0]
+                    old[0] = None
+                    ok = d != c and d not in both(c) and c not in closure(d)
+                    old[0] = d
+                    trial = {k2: both(k2) for k2 in range(ncls)}
+                    old[0] = was
+                    ok = ok and d != was and _plain_mro(trial, ncls) is not None
+                    if not ok:
+                        continue
+                before = {x: sorted(closure(x)) for x in set(ocls)}
+                was, old[0] = old[0], d
+                if any(sorted(closure(x)) != before[x] for x in before):
+                    reset()
+                hist.append(['retarget-generic', c, was, d])
                 try:
-                    old[1].eClassifier = K[d]
+                    old[1].eClassifier = None if d is None else K[d]
                 except Exception as e:  # noqa
-                    fail('meta-edit-raises', f'eClassifier = K{d} on a generic super type of K{c} raised {type(e).__name__}: {e}')
+                    fail('meta-edit-raises', f'eClassifier = {d} on a generic super type of K{c} raised {type(e).__name__}: {e}')
                     break
-                old[0] = d
                 st['generic_edits'] += 1
+                st['classifier_unset' if d is None else 'classifier_set_after_unset' if was is None else 'classifier_repointed'] += 1
             elif k == 'add-feature':
                 add_feature(c)
             else:
@@ -1367,6 +1398,9 @@ def generic_scenarios(ctx, out):
     out.coverage['generic_object_views_checked'] = st['object_views']
     out.coverage['generic_children_in_slot_inherited_through_generic_edge'] = st['children_in_slot_inherited_through_generic']
     out.coverage['generic_stores_refused'] = st['raised']
+    out.coverage['generic_classifier_of_a_generic_super_type_unset'] = st['classifier_unset']
+    out.coverage['generic_classifier_set_again_after_unset'] = st['classifier_set_after_unset']
+    out.coverage['generic_classifier_repointed'] = st['classifier_repointed']
     out.coverage['generic_redundant_super_types_added'] = st['redundant_added']
     out.coverage['generic_links_removed_that_made_a_direct_super_type_redundant'] = st['covering_link_removed']
     out.coverage['generic_class_views_with_a_redundant_direct_super_type'] = st['views_with_redundant_super']
@@ -2149,17 +2183,13 @@ def value_equal_scenarios(ctx, out):
                 if not can_hold(p, f, x, kids):
                     continue
                 if by_value and x in parent and objs[parent[x][0]].name == objs[p].name and parent[x][0] != p:
-                    # (moving between two value-equal parents: _update_container compares containers with != and leaves the
-                    #  object in both; ownership, not this property: not generated)
-                    st['skipped_move_between_equal_parents'] += 1
-                    continue
+                    # (moving between two value-equal parents: before fix 86e4696 the object stayed in both)
+                    st['skipped_move_between_equal_parents'] += 1          # (generated since fix 86e4696; counted)
                 top = ([x] + _chain(parent, x))[-1]
                 if by_value and any(v.name == objs[x].name and v is not objs[x] for rr in res for v in rr.contents
                                     if any(w is objs[top] for w in rr.contents)):
-                    # (the resource of the moved object has a ROOT equal to it: _update_container tests `value in
-                    #  resource.contents` by equality and takes that root out of the resource; ownership (C02), not generated)
-                    st['skipped_move_equal_to_a_root_of_its_resource'] += 1
-                    continue
+                    # (the resource of the moved object has a ROOT equal to it: before fix 86e4696 that root left the resource)
+                    st['skipped_move_equal_to_a_root_of_its_resource'] += 1   # (generated since fix 86e4696; counted)
                 hist.append(['move', x, p, f])
                 act = (lambda: setattr(objs[p], 'main', objs[x])) if f == 'main' else (lambda: objs[p].eGet(f).append(objs[x]))
             elif r < 0.78:
@@ -2207,8 +2237,8 @@ def value_equal_scenarios(ctx, out):
     out.coverage['valueeq_views_of_falsy_objects'] = st['falsy_views']
     out.coverage['valueeq_operations_refused'] = st['raised']
     out.coverage['valueeq_cases_left_because_an_object_was_held_twice'] = st['primary_state_ambiguous']
-    out.coverage['valueeq_moves_between_equal_parents_not_generated'] = st['skipped_move_between_equal_parents']
-    out.coverage['valueeq_moves_of_an_object_equal_to_a_root_of_its_resource_not_generated'] = st['skipped_move_equal_to_a_root_of_its_resource']
+    out.coverage['valueeq_moves_between_value_equal_parents'] = st['skipped_move_between_equal_parents']
+    out.coverage['valueeq_moves_of_an_object_equal_to_a_root_of_its_resource'] = st['skipped_move_equal_to_a_root_of_its_resource']
     out.coverage['valueeq_sample'] = sample
 
 
